@@ -74,16 +74,28 @@ def elems(lst):
     return lst.g['elems']
 
 
+def content_of(V, data, k):
+    """(Inflated) bytes the row of key k (in index view V) designates in pack content `data`."""
+    off, ln = V.col('offset', k), V.col('length', k)
+    return EM.dec(V.col('compressed', k), data.slice(off, off + ln))
+
+
 def row_content(vc, k):
-    """(Inflated) bytes the row of key k designates in the pack file as it was at the start."""
-    T, data = G(vc, '$V'), G(vc, '$data')
-    off, ln = T.col('offset', k), T.col('length', k)
-    return EM.dec(T.col('compressed', k), data.slice(off, off + ln))
+    return content_of(G(vc, '$V'), G(vc, '$data'), k)
 
 
 def in_pack(vc, k):
     T = G(vc, '$V')
     return b_and(T.has(k), T.col('pack_id', k) == G(vc, '$pack'))
+
+
+def readable_rows(V, data, p):
+    def readable(k):
+        off, ln, comp = V.col('offset', k), V.col('length', k), V.col('compressed', k)
+        return implies(b_and(V.has(k), V.col('pack_id', k) == p),
+                       b_and(off >= 0, ln >= 0, off + ln <= data.length(),
+                             implies(comp, b_and(EM.zvalid(data.slice(off, off + ln)), ln > 0))))
+    return Forall(readable)
 
 
 def vp_inv(vc, L):
@@ -134,57 +146,69 @@ class ValidatePack(CUnit):
         if which == 1:
             c.f['_operation_session'].view = SQL.Table.fresh('pinned')
         p = SInt.fresh('pack')
-        return NS(self=c, pack_id=p, callback=None, p=p)
+        return NS(self=c, pack_id=p, callback=None)
 
-    def pre(self, vc, a):
-        w, c = vc.world, a.self
-        fw = FS.snap(w)
-        s = c.f['_operation_session']
-        V = s.view if s.view is not None else SQL.db_of_world(w, vc).table
-        p = a.p
-        ino = fw.inode_at(pack_pid(c, p))
-        data = fw.data(ino)
-        yield 'pack_id_nonneg', p >= 0
-        yield 'pack_file_exists', ino != 0
-        yield 'pack_path_is_a_file', b_not(fw.is_dir(pack_pid(c, p)))
-
-        def readable(k):
-            off, ln, comp = V.col('offset', k), V.col('length', k), V.col('compressed', k)
-            return implies(b_and(V.has(k), V.col('pack_id', k) == p),
-                           b_and(off >= 0, ln >= 0, off + ln <= data.length(),
-                                 implies(comp, b_and(EM.zvalid(data.slice(off, off + ln)), ln > 0))))
-        yield 'indexed_ranges_of_the_pack_are_readable', Forall(readable)
-
-    def snapshot(self, vc, a):
+    def _state(self, vc, a):
         w, c = vc.world, a.self
         fw = FS.snap(w)
         s = c.f['_operation_session']
         T = SQL.db_of_world(w, vc).table
-        V = s.view if s.view is not None else T
-        if s.view is None:
-            # the first statement of the call pins the committed index
-            pass
-        ino = fw.inode_at(pack_pid(c, a.p))
-        vc.ghost.update({'$T': T, '$V': V, '$ent0': w.ent, '$idata0': w.idata, '$session': s, '$pack': a.p,
-                         '$ino': None, '$data': fw.data(ino), '$files': [f.num for f in w.open_fds if f.what != 'sqlite']})
+        V = s.view if (s is not None and s.view is not None) else T
+        p = SInt.of(a.pack_id)
+        ino = fw.inode_at(pack_pid(c, p))
+        return NS(fw=fw, T=T, V=V, p=p, ino=ino, data=fw.data(ino), s=s)
+
+    def pre(self, vc, a):
+        st = self._state(vc, a)
+        yield 'no_callback', SBool.of(a.callback is None)
+        yield 'pack_id_nonneg', st.p >= 0
+        yield 'pack_file_exists', st.ino != 0
+        yield 'pack_path_is_a_file', b_not(st.fw.is_dir(pack_pid(a.self, st.p)))
+        yield 'indexed_ranges_of_the_pack_are_readable', readable_rows(st.V, st.data, st.p)
+
+    def snapshot(self, vc, a):
+        w = vc.world
+        st = self._state(vc, a)
+        vc.ghost.update({'$T': st.T, '$V': st.V, '$ent0': w.ent, '$idata0': w.idata, '$session': st.s, '$pack': st.p,
+                         '$ino': None, '$data': st.data, '$files': [f.num for f in w.open_fds if f.what != 'sqlite']})
         vc.env_hook = vp_hook
-        return NS(T=T, V=V, files=vc.ghost['$files'], ent=w.ent, idata=w.idata)
+        return NS(T=st.T, V=st.V, p=st.p, data=st.data, files=vc.ghost['$files'], ent=w.ent, idata=w.idata)
+
+    def result_clauses(self, c, o, IH, IS, OV):
+        h = c.f['$hash']
+        V, data, p = o.V, o.data, o.p
+        mine = lambda k: b_and(V.has(k), V.col('pack_id', k) == p)
+        yield 'invalid_hashes_are_exactly_the_rows_whose_bytes_do_not_hash_to_their_key', Forall(
+            lambda k: IH.has(k) == b_and(mine(k), EM.H(h, content_of(V, data, k)) != SStr.of(k)))
+        yield 'invalid_sizes_are_exactly_the_rows_whose_length_differs_from_the_recorded_size', Forall(
+            lambda k: IS.has(k) == b_and(mine(k), content_of(V, data, k).length() != V.col('size', k)))
+        yield 'overlapping_names_only_rows_of_the_pack', Forall(lambda k: implies(OV.has(k), mine(k)))
 
     def post(self, vc, a, o, ret):
         live, c = vc.world, a.self
-        h = c.f['$hash']
         ok = isinstance(ret, MDict) and [conc(k) for k, _ in ret.pairs] == ['invalid_hashes_packed', 'invalid_sizes_packed', 'overlapping_packed']
         yield 'returns_the_three_lists', SBool.of(ok)
         if ok:
             IH, IS, OV = (elems(v) for _, v in ret.pairs)
-            V = G(vc, '$V')
-            yield 'invalid_hashes_are_exactly_the_rows_whose_bytes_do_not_hash_to_their_key', Forall(
-                lambda k: IH.has(k) == b_and(in_pack(vc, k), EM.H(h, row_content(vc, k)) != SStr.of(k)))
-            yield 'invalid_sizes_are_exactly_the_rows_whose_length_differs_from_the_recorded_size', Forall(
-                lambda k: IS.has(k) == b_and(in_pack(vc, k), row_content(vc, k).length() != V.col('size', k)))
-            yield 'overlapping_names_only_rows_of_the_pack', Forall(lambda k: implies(OV.has(k), in_pack(vc, k)))
+            yield from self.result_clauses(c, o, IH, IS, OV)
         yield 'nothing_modified', SBool.of(live.ent is o.ent and live.idata is o.idata and SQL.db_of_world(live, vc).table is o.T)
         yield 'no_descriptor_leaked', SBool.of([f.num for f in live.open_fds if f.what != 'sqlite'] == o.files)
+
+    # ---- callee mode (used by validate)
+    def snapshot_callee(self, vc, a):
+        st = self._state(vc, a)
+        return NS(T=st.T, V=st.V, p=st.p, data=st.data)
+
+    def havoc(self, vc, I, a):
+        s = a.self.f['_operation_session']
+        if s.view is None:
+            s.view = a.o.V                  # the first statement pins the committed index
+        lists = [MList(None, n=SInt.fresh('n'), elems=SSet.fresh(nm)) for nm in ('invalid_hashes', 'invalid_sizes', 'overlapping')]
+        return MDict(list(zip(['invalid_hashes_packed', 'invalid_sizes_packed', 'overlapping_packed'], lists)))
+
+    def post_callee(self, vc, a, o, ret):
+        IH, IS, OV = (elems(v) for _, v in ret.pairs)
+        yield from self.result_clauses(a.self, o, IH, IS, OV)
 
 
 def vp_hook(I, tag, payload):
@@ -198,4 +222,137 @@ def vp_hook(I, tag, payload):
             vc.ghost['$V'] = s.view
 
 
-UNITS = CM_UNITS[:1] + HP.HELPER_SUMMARIES + [HashAnyStream(), ValidatePack()]
+# ============================================================================= validate
+def errs(L, name):
+    for k, v in L.all_errors.pairs:
+        if conc(k) == name:
+            return elems(v)
+    raise Unsupported(f'all_errors has no entry {name}')
+
+
+def loose_bad(vc, c, k):
+    ino = SInt(z3.Select(G(vc, '$ent0'), loose_pid(c, k).t))
+    return EM.H(c.f['$hash'], SBytes(z3.Select(G(vc, '$idata0'), ino.t))) != SStr.of(k)
+
+
+def va_common(vc, L):
+    live = vc.world
+    yield 'nothing_modified', SBool.of(live.ent is G(vc, '$ent0') and live.idata is G(vc, '$idata0')
+                                       and SQL.db_of_world(live, vc).table is G(vc, '$T'))
+    yield 'only_the_callers_descriptors_open', SBool.of([f.num for f in live.open_fds if f.what != 'sqlite'] == G(vc, '$files'))
+    yield 'four_lists', SBool.of(sorted(conc(k) for k, _ in L.all_errors.pairs) == sorted(FIELDS4))
+
+
+FIELDS4 = ['invalid_hashes_packed', 'invalid_hashes_loose', 'invalid_sizes_packed', 'overlapping_packed']
+
+
+def va_loose_inv(vc, L):
+    c = L.self
+    done = L.done
+    yield from va_common(vc, L)
+    s = c.f['_operation_session']
+    yield 'session_untouched', SBool.of(s is G(vc, '$session') and (s is None or (s.view is G(vc, '$view0') and not s.dirty)))
+    IHL = errs(L, 'invalid_hashes_loose')
+    yield 'wrong_loose_files_so_far', Forall(lambda k: IHL.has(k) == b_and(done.has(k), loose_bad(vc, c, k)))
+    for n in ('invalid_hashes_packed', 'invalid_sizes_packed', 'overlapping_packed'):
+        e = errs(L, n)
+        yield f'{n}_still_empty', Forall(lambda k, e=e: b_not(e.has(k)))
+
+
+def va_havoc(vc, L):
+    L.all_errors.pairs = [(k, MList(None, n=SInt.fresh('n'), elems=SSet.fresh(conc(k)))) for k, _ in L.all_errors.pairs]
+
+
+def va_packs_inv(vc, L):
+    c = L.self
+    yield from va_common(vc, L)
+    s = c.f['_operation_session']
+    ok = s is not None and s.view is not None and not s.dirty
+    yield 'one_snapshot_for_all_packs', SBool.of(ok)
+    if not ok:
+        return
+    V = s.view
+    if '$Vv' not in vc.ghost:
+        vc.ghost['$Vv'] = V
+        vc.ghost['$loose_errors'] = errs(L, 'invalid_hashes_loose')
+    yield 'snapshot_unchanged', SBool.of(V is G(vc, '$Vv'))
+    pdone = L.done
+    h = c.f['$hash']
+    fw = FS.snap(vc.world)
+    visited = lambda k: b_and(V.has(k), SBool(z3.IsMember(V.col('pack_id', k).t, pdone)))
+    data_of = lambda k: fw.data(fw.inode_at(pack_pid(c, V.col('pack_id', k))))
+    IHP, ISP, OVP = errs(L, 'invalid_hashes_packed'), errs(L, 'invalid_sizes_packed'), errs(L, 'overlapping_packed')
+    yield 'wrong_digests_of_the_packs_done', Forall(lambda k: IHP.has(k) == b_and(visited(k), EM.H(h, content_of(V, data_of(k), k)) != SStr.of(k)))
+    yield 'wrong_sizes_of_the_packs_done', Forall(lambda k: ISP.has(k) == b_and(visited(k), content_of(V, data_of(k), k).length() != V.col('size', k)))
+    yield 'overlaps_name_rows_of_the_packs_done', Forall(lambda k: implies(OVP.has(k), visited(k)))
+    yield 'loose_errors_untouched', errs(L, 'invalid_hashes_loose') == G(vc, '$loose_errors')
+
+
+class Validate(CUnit):
+    """Container.validate (callback=None) on a container whose indexed ranges are readable: the four lists of the returned
+    ValidationIssues are exactly the loose files whose content does not hash to their name, the rows whose (inflated) bytes
+    do not hash to their key / differ in length from the recorded size, and `overlapping` names only indexed rows; all
+    packs are checked against ONE snapshot of the index; nothing is modified, nothing is left open. Hence: is_valid() is
+    false whenever a loose file or an indexed range was damaged in a way that changes what is read."""
+    fn = 'container:Container.validate'
+    props = ('C12',)
+    allowed_exc = ()
+    timeout_ms = 8000
+    parallel = True
+    loops = {0: Loop(0, va_loose_inv, havoc=va_havoc), 1: Loop(1, va_packs_inv, havoc=va_havoc)}
+
+    def make(self, vc, I):
+        w = mk_world(vc)
+        which = vc.choose(3, label='session_before_the_call')
+        c = mk_container(vc, I, w, session='open' if which else 'none', hash_types=('sha256',))
+        if which == 2:
+            c.f['_operation_session'].view = SQL.Table.fresh('pinned')
+        return NS(self=c, callback=None)
+
+    def pre(self, vc, a):
+        w, c = vc.world, a.self
+        fw = FS.snap(w)
+        s = c.f['_operation_session']
+        T = SQL.db_of_world(w, vc).table
+        yield from CWL.layout_inv(vc, w, c)
+        for nm, V in (('committed', T),) + ((('pinned', s.view),) if (s is not None and s.view is not None) else ()):
+            def readable(k, V=V):
+                p = V.col('pack_id', k)
+                ino = fw.inode_at(pack_pid(c, p))
+                data = fw.data(ino)
+                off, ln, comp = V.col('offset', k), V.col('length', k), V.col('compressed', k)
+                return implies(V.has(k), b_and(p >= 0, ino != 0, b_not(fw.is_dir(pack_pid(c, p))), off >= 0, ln >= 0, off + ln <= data.length(),
+                                               implies(comp, b_and(EM.zvalid(data.slice(off, off + ln)), ln > 0))))
+            yield f'indexed_ranges_readable_{nm}', Forall(readable)
+
+    def snapshot(self, vc, a):
+        w, c = vc.world, a.self
+        s = c.f['_operation_session']
+        T = SQL.db_of_world(w, vc).table
+        vc.ghost.update({'$T': T, '$ent0': w.ent, '$idata0': w.idata, '$session': s, '$view0': s.view if s is not None else None,
+                         '$files': [f.num for f in w.open_fds if f.what != 'sqlite'], '$container': c})
+        return NS(T=T, ent=w.ent, idata=w.idata, files=vc.ghost['$files'], V=(s.view if (s is not None and s.view is not None) else T))
+
+    def post(self, vc, a, o, ret):
+        live, c = vc.world, a.self
+        h = c.f['$hash']
+        fw = FS.snap(live)
+        ok = isinstance(ret, PyObj) and ret.cls.name == 'ValidationIssues' and all(isinstance(ret.f.get(n), MList) for n in FIELDS4)
+        yield 'returns_validation_issues', SBool.of(ok)
+        if ok:
+            V = o.V
+            L0 = vc.ghost['$first:container:Container._list_loose'].items
+            data_of = lambda k: fw.data(fw.inode_at(pack_pid(c, V.col('pack_id', k))))
+            IHL, IHP, ISP, OVP = (elems(ret.f[n]) for n in ('invalid_hashes_loose', 'invalid_hashes_packed', 'invalid_sizes_packed', 'overlapping_packed'))
+            yield 'invalid_loose_are_exactly_the_loose_files_whose_content_does_not_hash_to_their_name', Forall(
+                lambda k: IHL.has(k) == b_and(L0.has(k), loose_bad(vc, c, k)))
+            yield 'invalid_hashes_are_exactly_the_rows_whose_bytes_do_not_hash_to_their_key', Forall(
+                lambda k: IHP.has(k) == b_and(V.has(k), EM.H(h, content_of(V, data_of(k), k)) != SStr.of(k)))
+            yield 'invalid_sizes_are_exactly_the_rows_whose_length_differs_from_the_recorded_size', Forall(
+                lambda k: ISP.has(k) == b_and(V.has(k), content_of(V, data_of(k), k).length() != V.col('size', k)))
+            yield 'overlapping_names_only_indexed_rows', Forall(lambda k: implies(OVP.has(k), V.has(k)))
+        yield 'nothing_modified', SBool.of(live.ent is o.ent and live.idata is o.idata and SQL.db_of_world(live, vc).table is o.T)
+        yield 'no_descriptor_leaked', SBool.of([f.num for f in live.open_fds if f.what != 'sqlite'] == o.files)
+
+
+UNITS = CM_UNITS[:1] + HP.HELPER_SUMMARIES + [HashAnyStream(), ValidatePack(), Validate()]
